@@ -230,7 +230,7 @@ func (r *relay) processFrame(f http2.Frame) error {
 		if !f.HeadersEnded() {
 			r.headerBuffer.Reset()
 			r.headerBuffer.Write(f.HeaderBlockFragment())
-			r.continuationState = &headerContinuation{f.Priority}
+			r.continuationState = &headerContinuation{f.Priority, f.StreamEnded()}
 		} else {
 			var headers []hpack.HeaderField
 			headers, err = r.decodeFull(f.HeaderBlockFragment())
@@ -577,11 +577,12 @@ type continuationState interface {
 }
 
 type headerContinuation struct {
-	priority http2.PriorityParam
+	priority    http2.PriorityParam
+	streamEnded bool
 }
 
 func (h *headerContinuation) complete(s Processor, headers []hpack.HeaderField) error {
-	return s.Header(headers, true, h.priority)
+	return s.Header(headers, h.streamEnded, h.priority)
 }
 
 type pushPromiseContinuation struct {
